@@ -245,13 +245,14 @@ let () =
               let (n, ok) = check_analyses db evs in
               Printf.sprintf "%d %s" (int_of_n n) (b ok)
             | "solver" ->
-              (* U P fuel efuel kind result levents db calls ->
+              (* U P fuel efuel [0 | 1 completion-order] kind result levents db calls ->
                  model-outcome outcome-equal log-equal db-equal calls-equal agreeing-prefix *)
               let u = universe s in let p = problem s in
               let fuel = nat_of_int (next s) in let efuel = nat_of_int (next s) in
+              let order = if next s = 0 then None else Some (rep s task) in
               let kind = nextn s in let res = nlist s in
               let evs = rep s levent in let db = rep s clause in let calls = rep s pcall in
-              let (((((oc, oeq), leq), deq), ceq), pre) = check_solver (table_provider u) p fuel efuel kind res evs db calls in
+              let (((((oc, oeq), leq), deq), ceq), pre) = check_solver (table_provider u) p fuel efuel order kind res evs db calls in
               Printf.sprintf "%d %s %s %s %s %d" (int_of_n oc) (b oeq) (b leq) (b deq) (b ceq) (int_of_n pre)
             | "propagates" ->
               (* db initial-watches asserted-clause-ids pevents -> calls-compared assignments-compared all-equal *)
